@@ -148,3 +148,24 @@ def response_sequences(world, x, depth=0):
     if x.op == "call" and isinstance(x.info, str) and x.info.endswith("Default::default"):
         return [[]]
     return [[x]]
+
+
+def collection_repr(world, x, depth=0):
+    """a representative element expression of a collection built by an iterator chain: for collect(map(src, f)) / map(src, f)
+    (possibly behind filters, `?`, extend) the closure's result on the item of src; None if x is not of that shape"""
+    from ..iters import mk_item, last, TRANSPARENT, DROPPING
+    x = world.ident(x, expand_ws=False)
+    while depth < 20:
+        depth += 1
+        if x.op == "proj":
+            x = world.ident(x.args[0], expand_ws=False)
+            continue
+        if x.op == "call" and world.callee_body(x) is None and x.args:
+            nm = last(x.info)
+            if nm in ("collect",) or nm in TRANSPARENT or (nm in DROPPING and nm != "filter_map"):
+                x = world.ident(x.args[0], expand_ws=False)
+                continue
+            if nm in ("map", "filter_map", "flat_map") and len(x.args) == 2 and x.args[1].op == "closure":
+                return world.ident(world.apply_closure(x.args[1], [mk_item(world, x.args[0])]), expand_ws=False)
+        return None
+    return None
